@@ -46,6 +46,7 @@ type EngineSpec struct {
 	StatFS     bool `json:"stat_fs,omitempty"`
 	ReadDirFS  bool `json:"read_dir_fs,omitempty"`
 	PathFill   int  `json:"path_fill,omitempty"` // distinct throw-away paths resolved before the run (fills the global path cache)
+	BaseFill   *DataSpec `json:"base_fill,omitempty"` // data filled into the base template at construction (Base.* entries render with it)
 }
 
 // FileSpec is one simulated file with its immutable versions.
